@@ -477,6 +477,9 @@ def run(repo, check):
     from sa.rules import c13 as _c13
     share(check, repo, _c13.rule_r3, 'C11.R8', 'the decoder a stream is scanned with keeps nothing from one message to the next (shared with C13.R3)',
           keep=lambda f: 'Decoder' in f.key or 'Coder.' in f.key or 'Coder:' in f.key)
+    from sa.rules import c20 as _c20
+    share(check, repo, _c20.rule_r6, 'C11.R9', 'a message of data category 11 in any other layout is refused by the definition processor with the library error the scanner '
+          'absorbs, so it is delivered like any other message (shared with C20.R6)')
     check.assumptions = ['the scripted decoder stands for Decoder.process: it succeeds exactly at real message starts, reports the decoded span (C04.R4) and '
                          'raises a library error on damaged input (C12); the scanner logic is what is decided here',
                          'the boundaries found in a particular byte string are a runtime fact']
